@@ -5,6 +5,7 @@ import (
 	"crypto/sha1"
 	"encoding/hex"
 	"fmt"
+	"net"
 	"net/url"
 	"sort"
 	"strings"
@@ -77,6 +78,7 @@ type transferWorld struct {
 	complete    bool
 	completeAt  time.Duration
 	padOpened   bool
+	ban         *banTracker
 }
 
 // dupTracker: C09 "simultaneous downloads of one piece stay within the end-game limit", judged on
@@ -150,6 +152,122 @@ func (d *dupTracker) recheck(piece int, t0 time.Duration) {
 	sort.Strings(names)
 	simrt.Violate("C09", "duplicate.limit", "piece %d: the SUT keeps block requests outstanding at %d peers at once (%v) for more than 2s, end-game duplicate limit is %d", piece, len(b), names, d.limit)
 }
+
+// banTracker: C01 "a peer that supplied a piece failing the hash check is disconnected and not
+// reused". A scripted peer reports when one connection has delivered a whole piece in well-formed
+// blocks with wrong bytes. If at that moment no other connected peer (and no web seed) could have
+// completed the piece and the SUT had not announced it, the SUT must have hash-checked exactly
+// this copy once it has read the last block: from then on (plus slack) the connection must be
+// gone and the SUT must not request anything from that IP again until the torrent is stopped.
+type banTracker struct {
+	w      *transferWorld
+	mu     sync.Mutex
+	banned map[string]time.Duration // ip -> instant the SUT had read the whole corrupt piece
+	epoch  int                      // bumped by stop commands: bans recorded before do not bind
+}
+
+func (b *banTracker) reset() {
+	b.mu.Lock()
+	b.banned = map[string]time.Duration{}
+	b.epoch++
+	b.mu.Unlock()
+}
+
+// onLog: rain's own log says it received a corrupt piece from a peer: evidence that the hash
+// check of that peer's copy ran, whoever closed the connection meanwhile.
+func (b *banTracker) onLog(msg string) {
+	const pfx = "received corrupt piece from peer "
+	i := strings.Index(msg, pfx)
+	if i < 0 {
+		return
+	}
+	f := strings.Fields(msg[i+len(pfx):])
+	if len(f) == 0 {
+		return
+	}
+	host, _, err := net.SplitHostPort(f[0])
+	if err != nil {
+		return
+	}
+	simrt.Count("probe.ban.by_log", 1)
+	b.mu.Lock()
+	if _, ok := b.banned[host]; !ok {
+		b.banned[host] = simrt.Now()
+	}
+	b.mu.Unlock()
+}
+
+func (b *banTracker) onServedPiece(p *refbt.Peer, index int, corrupt bool, mark *simnet.Mark) {
+	if !corrupt || len(b.w.plan.Webseeds) > 0 || p.B.HangupAfterCorrupt {
+		// a peer that hangs up may have its last blocks discarded unprocessed: no inference
+		return
+	}
+	if p.SutAnnounced(index) {
+		return
+	}
+	// exclusivity: nobody else connected right now advertises the piece
+	for _, a := range b.w.peers {
+		q := a.Current()
+		if q == nil || q == p || q.IsClosed() {
+			continue
+		}
+		if q.Advertised().Has(index) {
+			simrt.Count("probe.ban.not_exclusive", 1)
+			return
+		}
+	}
+	b.mu.Lock()
+	epoch := b.epoch
+	b.mu.Unlock()
+	ip := p.Host.IP
+	simrt.Count("probe.ban.corrupt_piece_served_alone", 1)
+	go func() {
+		// wait until the SUT has read the last block
+		var at time.Duration
+		for i := 0; ; i++ {
+			if t, ok := mark.Consumed(); ok {
+				at = t
+				break
+			}
+			if i > 600 {
+				return // stalled link: nothing to conclude
+			}
+			time.Sleep(100 * time.Millisecond)
+		}
+		time.Sleep(5*time.Second + b.w.plan.DiskWriteLatMax)
+		// somebody completed the piece after all (a copy that was already in the write
+		// cache, a peer that came and went): then this copy may never have been checked
+		if DiskState(b.w.sut.FS, b.w.dir, b.w.T, false)[index] || p.SutAnnounced(index) {
+			simrt.Count("probe.ban.piece_completed_elsewhere", 1)
+			return
+		}
+		b.mu.Lock()
+		same := epoch == b.epoch
+		if same {
+			b.banned[ip] = at
+		}
+		b.mu.Unlock()
+		if !same {
+			return
+		}
+		simrt.Count("probe.ban.recorded", 1)
+		if !p.IsClosed() && !p.SutAnnounced(index) {
+			simrt.Violate("C01", "ban.not_disconnected", "peer %s delivered piece %d with wrong bytes (nobody else could have supplied it); %v after the SUT read the last block the connection is still open", p.Name, index, simrt.Now()-at)
+		}
+	}()
+}
+
+func (b *banTracker) onRequest(p *refbt.Peer, r refbt.Req) {
+	b.mu.Lock()
+	at, ok := b.banned[p.Host.IP]
+	b.mu.Unlock()
+	if ok && p.HandshakeAt > at {
+		simrt.Violate("C01", "ban.reused", "the SUT requests %v from %s (%s) on a connection made %v after that address delivered a piece failing the hash check", r, p.Name, p.Host.IP, p.HandshakeAt-at)
+	}
+}
+
+// RainLog receives rain's log messages when the run installed the log hook (see props).
+var RainLog func(msg string)
 
 func padPaths(t *gen.Torrent, dir string) map[string]bool {
 	m := map[string]bool{}
@@ -353,11 +471,15 @@ func RunTransfer(env *Env, plan *TransferPlan) {
 
 	lim := refbt.Limits{MaxRequestsOut: sut.Cfg.MaxRequestsOut, DefaultRequestsOut: sut.Cfg.DefaultRequestsOut}
 	dup := &dupTracker{limit: max(1, sut.Cfg.EndgameMaxDuplicateDownloads), act: map[*refbt.Peer]dupEntry{}}
+	w.ban = &banTracker{w: w, banned: map[string]time.Duration{}}
+	RainLog = w.ban.onLog
 	hooks := func(a *PeerActor) refbt.Hooks {
 		return refbt.Hooks{
-			OnActive: dup.onActive,
-			OnHave: func(p *refbt.Peer, i int) { checkClaim(fs, w.dir, T, i, "have/bitfield to "+p.Name) },
+			OnActive:      dup.onActive,
+			OnServedPiece: w.ban.onServedPiece,
+			OnHave:        func(p *refbt.Peer, i int) { checkClaim(fs, w.dir, T, i, "have/bitfield to "+p.Name) },
 			OnRequest: func(p *refbt.Peer, r refbt.Req) {
+				w.ban.onRequest(p, r)
 				w.mu.Lock()
 				m := w.askedPiece[int(r.Index)]
 				if m == nil {
@@ -538,6 +660,9 @@ func (w *transferWorld) doStep(s Step) {
 	w.env.SigAdd("step:%s", s.Kind)
 	switch s.Kind {
 	case "stop":
+		if w.ban != nil {
+			w.ban.reset()
+		}
 		w.sut.In(func() { w.tor.Stop() })
 	case "start":
 		w.sut.In(func() { w.tor.Start() })
